@@ -6,7 +6,7 @@ from props import arbgen, arbprop
 PROP = "C02"
 PROPS_FILES = ["Nic/Props/C02.lean", "Nic/Props/TieArb.lean"]
 # Go functions translated from /repo on every run (tools/gofn) and proved equal to the model in the Tie file above
-TIE_FUNCS = ['internal/k8s/configuration.go:chooseObjectMetaWinner', 'internal/k8s/configuration.go:compareObjectMetas', 'internal/k8s/configuration.go:compareObjectMetasWithAnnotations', 'internal/k8s/configuration.go:getResourceKey', 'internal/k8s/configuration.go:getResourceKeyWithKind', 'internal/k8s/utils.go:isMinion', 'internal/k8s/utils.go:isMaster']
+TIE_FUNCS = ['internal/k8s/configuration.go:chooseObjectMetaWinner', 'internal/k8s/configuration.go:compareObjectMetas', 'internal/k8s/configuration.go:compareObjectMetasWithAnnotations', 'internal/k8s/configuration.go:getResourceKey', 'internal/k8s/configuration.go:getResourceKeyWithKind', 'internal/k8s/utils.go:isMinion', 'internal/k8s/utils.go:isMaster', 'pkg/apis/configuration/validation/virtualserver.go:isRegexOrExactMatch', 'pkg/apis/configuration/validation/globalconfiguration.go:generatePortProtocolKey']
 HARNESS = "vh-k8s"
 RULE = ("(a) listener lists (1..7 entries) over 3 names x 3 ports x 3 protocols x {default, 2 IPv4} x {default, 1 IPv6}, with reserved ports, "
         "reserved/ill-formed names, bad IPs and protocols mixed in; the admitted entries (indices) of the real validator are compared with "
